@@ -35,6 +35,9 @@ type vfExpReq struct {
 type vfC19Case struct {
 	Reqs        []vfExpReq `json:"reqs"`
 	ExtraDirect int        `json:"extraDirectives"` // directives beyond the request list
+	// Codecs (via a suite file): the suite's relevant codecs; nil = [CODEC_PROTO]. Sizes are computed for the binary
+	// encoding, so a suite with size directives that is also relevant to another codec has unreachable sizes there
+	Codecs []int32 `json:"codecs,omitempty"`
 	// Via: "" calls expandRequestData directly; "suite" / "suite-limit" load a suite file that contains the
 	// test case through parseTestSuites (without / with relies_on_message_receive_limit)
 	Via string `json:"via"`
@@ -156,7 +159,14 @@ func vfC19Check(c vfC19Case) error {
 	if c.Via == "" {
 		err = expandRequestData(tc)
 	} else {
-		suite := &conformancev1.TestSuite{Name: "Verif C19", RelevantCodecs: []conformancev1.Codec{conformancev1.Codec_CODEC_PROTO},
+		codecs := []conformancev1.Codec{conformancev1.Codec_CODEC_PROTO}
+		if c.Codecs != nil {
+			codecs = nil
+			for _, k := range c.Codecs {
+				codecs = append(codecs, conformancev1.Codec(k))
+			}
+		}
+		suite := &conformancev1.TestSuite{Name: "Verif C19", RelevantCodecs: codecs,
 			ReliesOnMessageReceiveLimit: c.Via == "suite-limit", TestCases: []*conformancev1.TestCase{tc}}
 		if suite.ReliesOnMessageReceiveLimit {
 			suite.Mode = conformancev1.TestSuite_TEST_MODE_SERVER
@@ -173,6 +183,16 @@ func vfC19Check(c vfC19Case) error {
 			}
 			tc = parsed["verif-c19.yaml"].TestCases[0]
 		}
+	}
+	if c.Via != "" && c.Codecs != nil && !(len(c.Codecs) == 1 && c.Codecs[0] == 1) {
+		sized := false
+		for _, r := range c.Reqs {
+			sized = sized || (r.Expand && r.HasSize)
+		}
+		if sized && err == nil {
+			return verifkit.Violf("expand-nonproto-accepted", "a suite relevant to codecs %v has size directives (computed for the binary encoding) and was accepted", c.Codecs)
+		}
+		return nil
 	}
 	if c.ExtraDirect > 0 {
 		if err == nil {
@@ -283,6 +303,9 @@ func TestVerifC19Expand(t *testing.T) {
 				c.ExtraDirect = rapid.IntRange(1, 2).Draw(t, "nextra")
 			}
 			c.Via = rapid.SampledFrom([]string{"", "", "suite", "suite-limit"}).Draw(t, "via")
+			if c.Via != "" && rapid.IntRange(0, 3).Draw(t, "otherCodecs") == 0 {
+				c.Codecs = rapid.SampledFrom([][]int32{{1, 2}, {2, 1}, {2}, {1}}).Draw(t, "codecs")
+			}
 			return c
 		},
 		Check: vfC19Check,
